@@ -1109,12 +1109,14 @@ impl ConfigState {
             .fingerprint()
             .map_err(StateError::AddCertificate)?;
 
-        let entry = self.certificates.entry(add.address.into()).or_default();
-
+        // resolve the names before touching the map: a certificate that is
+        // rejected must not leave an empty per-address bucket behind
         let mut add = add.clone();
         add.certificate
             .apply_overriding_names()
             .map_err(StateError::AddCertificate)?;
+
+        let entry = self.certificates.entry(add.address.into()).or_default();
 
         if entry.contains_key(&fingerprint) {
             info!(
